@@ -5,7 +5,8 @@ import itertools
 
 from .. import core
 from ..core import Prop, Violation
-from ._coord import CoordMixin, Impl, gen_multi_kill, gen_cycled_ring, gen_ring_again
+from ._coord import (CoordMixin, Impl, gen_multi_kill, gen_cycled_ring, gen_ring_again, gen_long_gaps,
+                     gen_boost_inversion)
 
 FINDING = "C15-edges-dropped-on-progress"
 EXCUSABLE = {"exact_missed_deadlock", "exact_phantom_deadlock", "reported_members_really_wait"}   # never: acquire_result_matches_lock, victim / handling clauses
@@ -103,6 +104,10 @@ class C15(CoordMixin, Prop):
             yield gen_cycled_ring(rng)
         for i in range(max(40, n // 25)):
             yield gen_ring_again(rng)
+        for i in range(max(40, n // 25)):
+            yield gen_long_gaps(rng)
+        for i in range(max(60, n // 20)):
+            yield gen_boost_inversion(rng)
         # preemption, then the loser asks again for what it lost, then the winner asks for something the loser holds
         for i in range(max(20, n // 40)):
             pa, pb = rng.choice([(1, 5), (0, 1), (2, 3), (3, 3), (4, 2)])
